@@ -450,3 +450,84 @@ func H08tri() {
 	check((def == "" && len(x.Default) == 0) || (len(x.Default) == 1 && x.Default[0] == def), "several deviate statements on one target take effect in their written order (default)")
 	check(x.Units == units, "several deviate statements on one target take effect in their written order (units)")
 }
+
+// H08multi: several deviating modules. Two modules d1 and d2 (loaded in either order, before or
+// after the base module) each deviate one of two different targets with one deviate statement of
+// any kind and property: each target is what the reference application gives, everything else is
+// untouched, and an unappliable deviation in either module is reported.
+func H08multi() {
+	base := `module m { namespace "urn:m"; prefix m; leaf lf { type string; default "a"; } leaf-list ll { type string; min-elements 1; max-elements 5; } leaf lx { type string; } container c { leaf other { type string; default "o"; } } }`
+	pairs := [][2]string{{"lf", "ll"}, {"ll", "lf"}, {"lx", "lf"}}
+	pr := pairs[symChoice(len(pairs))]
+	t1, t2 := pr[0], pr[1]
+	// the first module's statement ranges over everything H08 draws, the second one's over a few
+	da := h08Draw()
+	db := h08Dev{kind: []string{"not-supported", "add", "replace"}[symChoice(3)], prop: "none"}
+	if db.kind != "not-supported" {
+		db.prop = []string{"default", "config", "max"}[symChoice(3)]
+		switch db.prop {
+		case "default":
+			db.sval = []string{"a", "b"}[symChoice(2)]
+		case "config":
+			db.bval = symChoice(2) == 1
+		case "max":
+			db.nval = []uint64{1, 5}[symChoice(2)]
+		}
+	}
+	d1 := `module d1 { namespace "urn:d1"; prefix d1; import m { prefix m; } deviation /m:` + t1 + ` { ` + da.text() + `} }`
+	d2 := `module d2 { namespace "urn:d2"; prefix d2; import m { prefix m; } deviation /m:` + t2 + ` { ` + db.text() + `} }`
+	note(d1 + d2)
+	msA, lerrsA := hLoad(base)
+	check(len(lerrsA) == 0, "base parses")
+	check(len(msA.Process()) == 0, "base processes")
+	emA := ToEntry(msA.Modules["m"])
+	s1, s2 := h08Read(emA.Dir[t1]), h08Read(emA.Dir[t2])
+	orders := [][]string{{base, d1, d2}, {d2, d1, base}}
+	o := orders[symChoice(len(orders))]
+	hNoFiles()
+	msB := NewModules()
+	for i, t := range o {
+		if err := msB.Parse(t, "f"+string([]byte{'0' + byte(i)})+".yang"); err != nil {
+			reach("refused-at-load")
+			return
+		}
+	}
+	errsB := msB.Process()
+	mustErr := h08Apply(&s1, da, false)
+	if h08Apply(&s2, db, false) {
+		mustErr = true
+	}
+	if len(errsB) > 0 {
+		reach("rejected")
+		check(mustErr, "deviations of several modules that can be applied are applied without error")
+		return
+	}
+	reach("applied")
+	check(!mustErr, "a deviation that cannot be applied is reported as an error, whichever module writes it")
+	hWF(msB)
+	emB := ToEntry(msB.Modules["m"])
+	for _, c := range []struct {
+		t    string
+		want h08State
+	}{{t1, s1}, {t2, s2}} {
+		got := h08Read(emB.Dir[c.t])
+		check(got.present == c.want.present, "not-supported removes exactly the target")
+		if got.present && c.want.present {
+			check(len(got.def) == len(c.want.def), "default values as prescribed, for each module's deviation")
+			if len(got.def) == len(c.want.def) {
+				for i := range got.def {
+					check(got.def[i] == c.want.def[i], "default values as prescribed, for each module's deviation")
+				}
+			}
+			check(got.config == c.want.config && got.mandatory == c.want.mandatory, "config and mandatory as prescribed")
+			check(got.min == c.want.min && got.max == c.want.max, "element bounds as prescribed")
+			check(got.units == c.want.units && got.kind == c.want.kind, "units and type as prescribed")
+		}
+	}
+	for _, k := range hSortedDir(emA.Dir) {
+		if k == t1 || k == t2 {
+			continue
+		}
+		check(emB.Dir[k] != nil && hDumpTree(emB.Dir[k], "") == hDumpTree(emA.Dir[k], ""), "every node that no deviation targets is identical to the run without the deviating modules")
+	}
+}
